@@ -1,6 +1,7 @@
 """C11 — memory is bounded by the configuration, not by the stream."""
 from ..paths import PathEnumerator
 from ..terms import TermBuilder, fmt, mk, const, subterms
+from ..terms import callee_is as _nm
 from ..dims import Dims, DimError, dfmt
 from .common import SELF, self_field, methods_of, has_self_receiver, all_writes, config_fields, rng_fields
 
@@ -42,7 +43,7 @@ def run(ctx):
                     return {"elem": 1}
                 if x[0] == "call" and x[1] == "size_of":
                     return {"byte": 1, "block": -1}
-                if x[0] == "call" and x[1].endswith("nbits"):
+                if x[0] == "call" and _nm(x[1], "nbits"):
                     return {"bit": 1, "block": -1}
                 return None
             try:
@@ -67,7 +68,7 @@ def run(ctx):
                     slots_ok = (slots == mk("Mul", ("param", 2, "bucketsize"), ("param", 3, "n_buckets"))) or (slots == mk("Shl", const(1), ("param", 1, "bits_quotient")))
                     # re-allocation of a packed table with its own shape: (its slot width, its slot count)
                     selfp_ = ("param", 1, "self")
-                    if slots[0] == "call" and slots[1].endswith("IntVec>::len") and len(slots[2]) == 1 and slots[2][0][0] == "field" and slots[2][0][1] == selfp_:
+                    if slots[0] == "call" and _nm(slots[1], "IntVec>::len") and len(slots[2]) == 1 and slots[2][0][0] == "field" and slots[2][0][1] == selfp_:
                         fld_t = slots[2][0]
                         own_width = a[0] == ("call", "<succinct::IntVector as succinct::IntVec>::element_bits", (fld_t,)) or a[0] == ("field", selfp_, "l_fingerprint")
                         if own_width:
@@ -108,13 +109,13 @@ def run(ctx):
         n_alloc += 1
         r = TermBuilder(hw, prog).return_term()
         want = ("call", "std::vec::from_elem", (const(0), mk("Shl", const(1), P(1, "b"))))
-        ctx.check(r[0] == "call" and r[1].endswith("with_registers_and_hash") and r[2][1] == want and r[2][0] == P(1, "b"), "R11-alloc-terms", hw.key + ":registers", hw,
+        ctx.check(r[0] == "call" and _nm(r[1], "with_registers_and_hash") and r[2][1] == want and r[2][0] == P(1, "b"), "R11-alloc-terms", hw.key + ":registers", hw,
                   "registers allocated as vec![0; 1 << b]", "HyperLogLog::with_hash allocates %s, documented size is 2^b registers" % fmt(r))
     expected_clear = {
-        "<filters::cuckoofilter::CuckooFilter as filters::Filter[T]>::clear": ("table", lambda v: v[0] == "call" and v[1].rsplit("::", 1)[-1] == "with_fill" and v[2][0][0] == "call" and v[2][0][1].endswith("element_bits") and v[2][0][2] == (S("table"),) and v[2][1][0] == "call" and v[2][1][1].rsplit("::", 1)[-1] == "len" and v[2][1][2] == (S("table"),)),
-        "<filters::quotientfilter::QuotientFilter as filters::Filter[T]>::clear": ("remainders", lambda v: v[0] == "call" and v[1].rsplit("::", 1)[-1] == "with_fill" and v[2][0][2] == (S("remainders"),) and v[2][1][2] == (S("remainders"),) and v[2][0][1].endswith("element_bits") and v[2][1][1].rsplit("::", 1)[-1] == "len"),
-        "countminsketch::CountMinSketch::clear": ("table", lambda v: v[0] == "call" and v[1].endswith("from_elem") and v[2][1] == mk("Mul", S("w"), S("d"))),
-        "hyperloglog::HyperLogLog::clear": ("registers", lambda v: v[0] == "call" and v[1].endswith("from_elem") and v[2][1] == ("call", "std::vec::Vec::len", (S("registers"),))),
+        "<filters::cuckoofilter::CuckooFilter as filters::Filter[T]>::clear": ("table", lambda v: v[0] == "call" and v[1].rsplit("::", 1)[-1] == "with_fill" and v[2][0][0] == "call" and _nm(v[2][0][1], "element_bits") and v[2][0][2] == (S("table"),) and v[2][1][0] == "call" and v[2][1][1].rsplit("::", 1)[-1] == "len" and v[2][1][2] == (S("table"),)),
+        "<filters::quotientfilter::QuotientFilter as filters::Filter[T]>::clear": ("remainders", lambda v: v[0] == "call" and v[1].rsplit("::", 1)[-1] == "with_fill" and v[2][0][2] == (S("remainders"),) and v[2][1][2] == (S("remainders"),) and _nm(v[2][0][1], "element_bits") and v[2][1][1].rsplit("::", 1)[-1] == "len"),
+        "countminsketch::CountMinSketch::clear": ("table", lambda v: v[0] == "call" and _nm(v[1], "from_elem") and v[2][1] == mk("Mul", S("w"), S("d"))),
+        "hyperloglog::HyperLogLog::clear": ("registers", lambda v: v[0] == "call" and _nm(v[1], "from_elem") and v[2][1] == ("call", "std::vec::Vec::len", (S("registers"),))),
     }
     for key, (fld, pred) in sorted(expected_clear.items()):
         f = ctx.anchor(key)
